@@ -27,10 +27,11 @@
   pairs, signature and node id" is therefore equality of the decoded `Record`s, and "public-key
   bytes" equality of `Record.publicKey`.
 
-  `Scheme.Lawful` (Spec.lean): the fields `pub_inj`, `key_not_reserved`, `pub_local` hold for
-  k256S / libsecpS / edS / combS unconditionally (below).  `pub_len` does NOT hold, because the
-  model's `PK` is all of `Bytes` and Lean lists of length ≥ 2^64 exist (`not_lawful_k256S` etc.);
-  it holds for every key `enrToPublic` can return (`k256S_enrToPublic_len`, …, `*_pub_len_on_range`).
+  `Scheme.Lawful` (Spec.lean: `pub_inj`, `key_not_reserved`, `pub_local`) is PROVED for k256S /
+  libsecpS / edS / combS (`k256S_lawful` …, `Proofs/SchemeLemmas.lean`; restated in §6).  The bound
+  on the length of a key's encoding is not a law of the key type (the model's `PK` is all of
+  `Bytes`) but the per-key predicate `KeyOK`; it holds for every key `enrToPublic` can return
+  (`k256S_keyOK_of_enrToPublic`, …) and for every key of fewer than 2^64 bytes (`k256S_keyOK`, …).
 -/
 import EnrVerif.Proofs.SchemeLemmas
 
@@ -433,129 +434,27 @@ theorem ed_rejects_secp_only (S : Scheme) (r : Record) (rest : Bytes) (hv : Vali
     rw [← e, h] at this
     cases this
 
-/-! ### 6. `Scheme.Lawful` for the real key types -/
+/-! ### 6. `Scheme.Lawful` for the real key types
 
-theorem k256S_pub_inj (a b : k256S.PK) (_h : k256S.enrKey a = k256S.enrKey b)
-    (h : k256S.encodePub a = k256S.encodePub b) : a = b := h
-theorem libsecpS_pub_inj (a b : libsecpS.PK) (_h : libsecpS.enrKey a = libsecpS.enrKey b)
-    (h : libsecpS.encodePub a = libsecpS.encodePub b) : a = b := h
-theorem edS_pub_inj (a b : edS.PK) (_h : edS.enrKey a = edS.enrKey b)
-    (h : edS.encodePub a = edS.encodePub b) : a = b := h
-theorem combS_pub_inj (a b : combS.PK) (_h : combS.enrKey a = combS.enrKey b)
-    (h : combS.encodePub a = combS.encodePub b) : a = b := h
+  Proved in `Proofs/SchemeLemmas.lean` (last section): `k256S_pub_inj`, `k256S_key_not_reserved`,
+  `k256S_pub_local`, … for each key type, assembled into `k256S_lawful`, `libsecpS_lawful`,
+  `edS_lawful`, `combS_lawful` (and `toyS_lawful`).  Restated here so that the file shows them. -/
 
-theorem kSecp_not_reserved :
-    kSecp ≠ kId ∧ isPortKey kSecp = false ∧ kSecp ≠ kIp ∧ kSecp ≠ kIp6 := by decide
-theorem kEd_not_reserved :
-    kEd ≠ kId ∧ isPortKey kEd = false ∧ kEd ≠ kIp ∧ kEd ≠ kIp6 := by decide
+/-- The three scheme laws hold for every built-in key type, so the history theorems of C05, C10,
+    C03 apply to them. -/
+theorem builtin_schemes_lawful :
+    k256S.Lawful ∧ libsecpS.Lawful ∧ edS.Lawful ∧ combS.Lawful :=
+  ⟨k256S_lawful, libsecpS_lawful, edS_lawful, combS_lawful⟩
 
-theorem k256S_key_not_reserved (pk : k256S.PK) : k256S.enrKey pk ≠ kId ∧
-    isPortKey (k256S.enrKey pk) = false ∧ k256S.enrKey pk ≠ kIp ∧ k256S.enrKey pk ≠ kIp6 :=
-  kSecp_not_reserved
-theorem libsecpS_key_not_reserved (pk : libsecpS.PK) : libsecpS.enrKey pk ≠ kId ∧
-    isPortKey (libsecpS.enrKey pk) = false ∧ libsecpS.enrKey pk ≠ kIp ∧
-    libsecpS.enrKey pk ≠ kIp6 :=
-  kSecp_not_reserved
-theorem edS_key_not_reserved (pk : edS.PK) : edS.enrKey pk ≠ kId ∧
-    isPortKey (edS.enrKey pk) = false ∧ edS.enrKey pk ≠ kIp ∧ edS.enrKey pk ≠ kIp6 :=
-  kEd_not_reserved
-theorem combS_key_not_reserved (pk : combS.PK) : combS.enrKey pk ≠ kId ∧
-    isPortKey (combS.enrKey pk) = false ∧ combS.enrKey pk ≠ kIp ∧ combS.enrKey pk ≠ kIp6 := by
-  show (if pk.length = 33 then kSecp else kEd) ≠ kId ∧
-    isPortKey (if pk.length = 33 then kSecp else kEd) = false ∧
-    (if pk.length = 33 then kSecp else kEd) ≠ kIp ∧ (if pk.length = 33 then kSecp else kEd) ≠ kIp6
-  split
-  · exact kSecp_not_reserved
-  · exact kEd_not_reserved
-
-theorem secpEnrToPublic_local (dec : Bytes → Option Secp.Pt) (rc : Bool) (c1 c2 : Content)
-    (h : Map.lookup c1 kSecp = Map.lookup c2 kSecp) :
-    secpEnrToPublic dec rc c1 = secpEnrToPublic dec rc c2 := by
-  unfold secpEnrToPublic
-  rw [pubEntry_local c1 c2 kSecp h]
-
-theorem edEnrToPublic_local (c1 c2 : Content) (h : Map.lookup c1 kEd = Map.lookup c2 kEd) :
-    edEnrToPublic c1 = edEnrToPublic c2 := by
-  unfold edEnrToPublic
-  rw [pubEntry_local c1 c2 kEd h]
-
-theorem k256S_pub_local (c1 c2 : Content)
-    (h : ∀ pk : k256S.PK, Map.lookup c1 (k256S.enrKey pk) = Map.lookup c2 (k256S.enrKey pk)) :
-    k256S.enrToPublic c1 = k256S.enrToPublic c2 :=
-  secpEnrToPublic_local _ _ c1 c2 (h [])
-
-theorem libsecpS_pub_local (c1 c2 : Content)
-    (h : ∀ pk : libsecpS.PK,
-      Map.lookup c1 (libsecpS.enrKey pk) = Map.lookup c2 (libsecpS.enrKey pk)) :
-    libsecpS.enrToPublic c1 = libsecpS.enrToPublic c2 :=
-  secpEnrToPublic_local _ _ c1 c2 (h [])
-
-theorem edS_pub_local (c1 c2 : Content)
-    (h : ∀ pk : edS.PK, Map.lookup c1 (edS.enrKey pk) = Map.lookup c2 (edS.enrKey pk)) :
-    edS.enrToPublic c1 = edS.enrToPublic c2 :=
-  edEnrToPublic_local c1 c2 (h [])
-
-theorem combS_pub_local (c1 c2 : Content)
-    (h : ∀ pk : combS.PK, Map.lookup c1 (combS.enrKey pk) = Map.lookup c2 (combS.enrKey pk)) :
-    combS.enrToPublic c1 = combS.enrToPublic c2 := by
-  have hs : Map.lookup c1 kSecp = Map.lookup c2 kSecp := h (List.replicate 33 0)
-  have he : Map.lookup c1 kEd = Map.lookup c2 kEd := h []
-  have hk := k256S_pub_local c1 c2 (fun _ => hs)
-  cases h1 : k256S.enrToPublic c1 with
-  | ok pk =>
-    rw [comb_prefers_secp c1 pk h1, comb_prefers_secp c2 pk (by rw [← hk]; exact h1)]
-  | error e =>
-    rw [comb_falls_back_to_ed c1 e h1, comb_falls_back_to_ed c2 e (by rw [← hk]; exact h1)]
-    exact edEnrToPublic_local c1 c2 he
-
-/-- every key `enr_to_public` can return is a 33-byte (secp256k1) resp. 32-byte (ed25519) string -/
-theorem k256S_enrToPublic_len (c : Content) (pk : Bytes) (h : k256S.enrToPublic c = .ok pk) :
-    pk.length = 33 := secpEnrToPublic_len _ _ c pk h
-theorem libsecpS_enrToPublic_len (c : Content) (pk : Bytes)
-    (h : libsecpS.enrToPublic c = .ok pk) : pk.length = 33 := secpEnrToPublic_len _ _ c pk h
-theorem edS_enrToPublic_len (c : Content) (pk : Bytes) (h : edS.enrToPublic c = .ok pk) :
-    pk.length = 32 := edEnrToPublic_len c pk h
-theorem combS_enrToPublic_len (c : Content) (pk : Bytes) (h : combS.enrToPublic c = .ok pk) :
-    pk.length = 33 ∨ pk.length = 32 := by
-  rcases combS_enrToPublic_cases c pk h with ⟨_, hl⟩ | ⟨_, _, hl⟩
-  · exact Or.inl hl
-  · exact Or.inr hl
-
-/-- `pub_len` restricted to the keys the key type can actually produce -/
-theorem k256S_pub_len_on_range (c : Content) (pk : k256S.PK) (h : k256S.enrToPublic c = .ok pk) :
-    (k256S.encodePub pk).length < 2 ^ 64 ∧ (k256S.enrKey pk).length < 2 ^ 64 := by
-  have hl : (k256S.encodePub pk).length = 33 := k256S_enrToPublic_len c pk h
-  exact ⟨by rw [hl]; decide, show kSecp.length < 2 ^ 64 by decide⟩
-theorem libsecpS_pub_len_on_range (c : Content) (pk : libsecpS.PK)
-    (h : libsecpS.enrToPublic c = .ok pk) :
-    (libsecpS.encodePub pk).length < 2 ^ 64 ∧ (libsecpS.enrKey pk).length < 2 ^ 64 := by
-  have hl : (libsecpS.encodePub pk).length = 33 := libsecpS_enrToPublic_len c pk h
-  exact ⟨by rw [hl]; decide, show kSecp.length < 2 ^ 64 by decide⟩
-theorem edS_pub_len_on_range (c : Content) (pk : edS.PK) (h : edS.enrToPublic c = .ok pk) :
-    (edS.encodePub pk).length < 2 ^ 64 ∧ (edS.enrKey pk).length < 2 ^ 64 := by
-  have hl : (edS.encodePub pk).length = 32 := edS_enrToPublic_len c pk h
-  exact ⟨by rw [hl]; decide, show kEd.length < 2 ^ 64 by decide⟩
-theorem combS_pub_len_on_range (c : Content) (pk : combS.PK) (h : combS.enrToPublic c = .ok pk) :
-    (combS.encodePub pk).length < 2 ^ 64 ∧ (combS.enrKey pk).length < 2 ^ 64 := by
-  have hl : (combS.encodePub pk).length = 33 ∨ (combS.encodePub pk).length = 32 :=
-    combS_enrToPublic_len c pk h
-  refine ⟨by rcases hl with hl | hl <;> rw [hl] <;> decide, ?_⟩
-  show (if pk.length = 33 then kSecp else kEd).length < 2 ^ 64
-  split <;> decide
-
-/-- `Scheme.Lawful` itself is not satisfiable by the model's real key types: `PK` is all of
-    `Bytes`, and `pub_len` fails on a (purely mathematical) list of `2^64` bytes. -/
-theorem not_lawful_of_id (S : Scheme) (hPK : S.PK = Bytes)
-    (henc : ∀ pk : S.PK, (S.encodePub pk).length = (cast hPK pk).length) : ¬ S.Lawful := by
-  intro hL
-  have h := (hL.pub_len (cast hPK.symm (List.replicate (2 ^ 64) 0))).1
-  rw [henc, cast_cast, cast_eq, List.length_replicate] at h
-  exact Nat.lt_irrefl _ h
-
-theorem not_lawful_k256S : ¬ k256S.Lawful := not_lawful_of_id k256S rfl (fun _ => rfl)
-theorem not_lawful_libsecpS : ¬ libsecpS.Lawful := not_lawful_of_id libsecpS rfl (fun _ => rfl)
-theorem not_lawful_edS : ¬ edS.Lawful := not_lawful_of_id edS rfl (fun _ => rfl)
-theorem not_lawful_combS : ¬ combS.Lawful := not_lawful_of_id combS rfl (fun _ => rfl)
+/-- The per-key length bound `KeyOK` holds for every key a key type can read back from a record
+    (33 bytes for secp256k1, 32 for ed25519), e.g. for the record's own key. -/
+theorem builtin_keyOK_on_range :
+    (∀ c pk, k256S.enrToPublic c = .ok pk → KeyOK k256S pk) ∧
+    (∀ c pk, libsecpS.enrToPublic c = .ok pk → KeyOK libsecpS pk) ∧
+    (∀ c pk, edS.enrToPublic c = .ok pk → KeyOK edS pk) ∧
+    (∀ c pk, combS.enrToPublic c = .ok pk → KeyOK combS pk) :=
+  ⟨k256S_keyOK_of_enrToPublic, libsecpS_keyOK_of_enrToPublic, edS_keyOK_of_enrToPublic,
+   combS_keyOK_of_enrToPublic⟩
 
 /-! ### examples (parser guards only; no curve arithmetic is evaluated) -/
 
@@ -624,28 +523,15 @@ open EnrVerif
 #print axioms decode_comb_has_entry
 #print axioms secp_rejects_ed_only
 #print axioms ed_rejects_secp_only
-#print axioms k256S_pub_inj
-#print axioms libsecpS_pub_inj
-#print axioms edS_pub_inj
-#print axioms combS_pub_inj
-#print axioms k256S_key_not_reserved
-#print axioms libsecpS_key_not_reserved
-#print axioms edS_key_not_reserved
-#print axioms combS_key_not_reserved
-#print axioms k256S_pub_local
-#print axioms libsecpS_pub_local
-#print axioms edS_pub_local
-#print axioms combS_pub_local
-#print axioms k256S_enrToPublic_len
-#print axioms libsecpS_enrToPublic_len
-#print axioms edS_enrToPublic_len
-#print axioms combS_enrToPublic_len
-#print axioms k256S_pub_len_on_range
-#print axioms libsecpS_pub_len_on_range
-#print axioms edS_pub_len_on_range
-#print axioms combS_pub_len_on_range
-#print axioms not_lawful_k256S
-#print axioms not_lawful_libsecpS
-#print axioms not_lawful_edS
-#print axioms not_lawful_combS
+#print axioms builtin_schemes_lawful
+#print axioms builtin_keyOK_on_range
+#print axioms k256S_lawful
+#print axioms libsecpS_lawful
+#print axioms edS_lawful
+#print axioms combS_lawful
+#print axioms toyS_lawful
+#print axioms k256S_keyOK_of_enrToPublic
+#print axioms libsecpS_keyOK_of_enrToPublic
+#print axioms edS_keyOK_of_enrToPublic
+#print axioms combS_keyOK_of_enrToPublic
 end Axioms
